@@ -11,6 +11,10 @@ type containerMetaList struct {
 	main       metaIterator
 	choiceCase *containerMetaList
 	s          *Selection
+
+	// error from node while asking which case of a choice is selected. iteration
+	// stops when this happens
+	err error
 }
 
 type metaIterator interface {
@@ -70,6 +74,12 @@ func (self *containerMetaList) lookAhead() {
 		if self.choiceCase != nil {
 			m = self.choiceCase.nextMeta()
 			if m == nil {
+				if self.choiceCase.err != nil {
+					self.err = self.choiceCase.err
+					self.main = nil
+					self.choiceCase = nil
+					break
+				}
 				self.choiceCase = nil
 				continue
 			}
@@ -83,7 +93,10 @@ func (self *containerMetaList) lookAhead() {
 		}
 		if choice, isChoice := m.(*meta.Choice); isChoice {
 			if chosen, err := self.s.Node.Choose(self.s, choice); err != nil {
-				panic(fmt.Sprintf("%T - %s", self.s.Node, err))
+				self.err = fmt.Errorf("%T - %w", self.s.Node, err)
+				self.main = nil
+				self.choiceCase = nil
+				break
 			} else if chosen != nil {
 				self.choiceCase = newChoiceCaseIterator(self.s, chosen)
 				continue
